@@ -184,6 +184,12 @@ def run_one(run):
         except (HarnessError, InjectedCrash):
             raise
         except Exception as e:  # noqa: BLE001
+            if type(e).__name__ in ("DivergedError", "NotConvergedError"):
+                # the exponential series is only conditionally stable (slice thickness vs sampling^2 / wavelength): the library
+                # refuses such a step with a dedicated error instead of returning a wrong wave -- not a violation
+                run.invalid = True
+                run.note("vacuum_step_refused_as_unstable")
+                return
             run.violate("vacuum-preserves-intensity", sig(sc, "raise", {"exc": type(e).__name__}), f"{type(e).__name__}: {e} at {tb(e)}")
             return
         i0 = float((np.abs(arr) ** 2).sum())
